@@ -49,6 +49,9 @@ type Options struct {
 	// NoHandshake: the server accepts the TCP connection and then stays silent: the TLS
 	// handshake never completes. The session has no Server endpoint.
 	NoHandshake bool
+	// DebugLogs sets Config.EnableDebugLogs (the relay then formats every header list and
+	// frame for its log; the log itself stays silent in the harness).
+	DebugLogs bool
 }
 
 // Session is one h2.Config.Proxy call between a frame-level client (in-memory)
@@ -103,6 +106,7 @@ func Open(o Options) (*Session, error) {
 
 	cfg := &h2.Config{
 		AllowedHostsFilter:       func(string) bool { return true },
+		EnableDebugLogs:          o.DebugLogs,
 		RootCAs:                  pool,
 		StreamProcessorFactories: o.Factories,
 	}
@@ -146,7 +150,12 @@ func Open(o Options) (*Session, error) {
 	s.tlsConn = tls.Server(s.tcp, &tls.Config{Certificates: []tls.Certificate{leaf}, NextProtos: protos})
 	s.tcp.SetDeadline(time.Now().Add(o.Bound))
 	if err := s.tlsConn.Handshake(); err != nil {
+		// a relay that gives the session up while it dials hangs up in the middle of the handshake
+		gaveUp, perr := s.ProxyReturned(o.Bound / 6)
 		s.Teardown(o.Bound)
+		if gaveUp {
+			return nil, fmt.Errorf("%w (TLS handshake: %v): %v", ErrProxyReturned, err, perr)
+		}
 		return nil, fmt.Errorf("TLS handshake with the relay: %v", err)
 	}
 	s.tcp.SetDeadline(time.Time{})
